@@ -60,6 +60,8 @@ def run(ctx, tier):
                          "escape predicates escape the Standard's code points"),
                  ("T11", "the IPv6-hostname canonicaliser rejects exactly the bytes that are not hex digits, '[', ']' or ':'; the pathname "
                          "canonicaliser removes exactly the prefix it added"),
+                 ("T12", "constructor string parser: the three defaulting steps of 'change state' (hostname, pathname, search) list the "
+                         "Standard's source and target states"),
                  ("T9", "the port canonicaliser tests the port state's limits (five significant digits, 65535)"),
                  ("T5", "each URLPattern canonicaliser scans and encodes with the one percent-encode set of its component")):
         ctx.rule(r, t)
@@ -77,6 +79,7 @@ def run(ctx, tier):
         from rules import c14_literals
         c14_literals.check(ctx, fxs[name], "T10")
         check_hostname6_and_prefix(ctx, fxs[name])
+        check_change_state_defaults(ctx, fxs[name])
         c10_limits.check(ctx, fxs[name], "T9", table=c10_limits.PORT_LIMITS_PATTERN, floor=1, contains=True, what="the port state's")
 
 
@@ -528,6 +531,53 @@ def classify_with_expr(bl, bid, idx, var, key):
     fake["ty"] = "uint8_t"
     out = bl.classify(bid, idx, fake, seed={var["id"]: vals})
     return out
+
+
+# URLPattern Standard, "change state": which component is defaulted when the parser jumps over it
+CHANGE_STATE_DEFAULTS = {
+    "hostname": ({"PROTOCOL", "AUTHORITY", "USERNAME", "PASSWORD"}, {"PORT", "PATHNAME", "SEARCH", "HASH"}),
+    "pathname": ({"PROTOCOL", "AUTHORITY", "USERNAME", "PASSWORD", "HOSTNAME", "PORT"}, {"SEARCH", "HASH"}),
+    "search": ({"PROTOCOL", "AUTHORITY", "USERNAME", "PASSWORD", "HOSTNAME", "PORT", "PATHNAME"}, {"HASH"}),
+}
+
+
+def check_change_state_defaults(ctx, fx):
+    """T12.  A constructor string such as "https://example.com:8080?q" never visits the pathname state; change state gives
+    the skipped components their defaults, and for each of them the Standard lists from which states and to which
+    states that applies.  A state missing from one list leaves the component absent, and the pattern then gets the
+    wildcard for it."""
+    import re
+    fs = [f for f in fx.functions if f["name"] == "change_state" and "constructor_string_parser" in f["qname"] and f.get("blocks")]
+    if not fs:
+        ctx.broken("T12: constructor_string_parser::change_state not found")
+    n = 0
+    for f in fs:
+        found = {}
+        for b in f["blocks"]:
+            t = b["term"]
+            if t.get("kind") != "IfStmt" or t.get("cond") is None:
+                continue
+            txt = X.show(t["cond"])
+            m = re.search(r"!\s*(?:this->)?result\.(\w+)", txt)
+            if not m:
+                continue
+            frm = set(re.findall(r"(?<![A-Za-z_])state == [\w:<>, ]*?State::(\w+)", txt))
+            to = set(re.findall(r"new_state == [\w:<>, ]*?State::(\w+)", txt))
+            found[m.group(1)] = (frm, to, t.get("loc") or f["loc"])
+        for comp, (wf, wt) in sorted(CHANGE_STATE_DEFAULTS.items()):
+            n += 1
+            if comp not in found:
+                ctx.fail("T12", "change_state: default of %s" % comp, "no step of change_state defaults result.%s when it does not exist" % comp,
+                         where=f["loc"].replace("/repo/", ""))
+                continue
+            gf, gt, loc = found[comp]
+            ctx.check("T12", "change_state: default of %s" % comp, gf == wf and gt == wt,
+                      "from {%s} to {%s}" % (", ".join(sorted(gf)), ", ".join(sorted(gt))),
+                      "result.%s is defaulted when leaving {%s} for {%s}; the Standard says from {%s} to {%s}%s" % (
+                          comp, ", ".join(sorted(gf)), ", ".join(sorted(gt)), ", ".join(sorted(wf)), ", ".join(sorted(wt)),
+                          "; missing: %s" % ", ".join(sorted((wf - gf) | (wt - gt))) if (wf - gf) | (wt - gt) else ""),
+                      where=str(loc).replace("/repo/", ""))
+    ctx.floor("T12", n, 3, "defaulting steps of change_state")
 
 
 def check_hostname6_and_prefix(ctx, fx):
